@@ -284,7 +284,7 @@ func (s *Sorts) zero(t types.Type) string {
 		z := s.intLit(big.NewInt(0), 64)
 		return fmt.Sprintf("(mk-Slice 0 %s %s %s)", z, z, z)
 	case *types.Interface:
-		return "nil.Iface"
+		return "(mk-Iface 0 0)"
 	}
 	return "0"
 }
